@@ -32,6 +32,10 @@ type Prog struct {
 	cg      *callgraph.Graph
 	allFns  map[*ssa.Function]bool
 	locks   *LockAnalysis
+	// Normalized counts the inlining rounds applied (0 on a tree whose functions are all in the baseline);
+	// Overlay is the source actually analysed where it differs from the files on disk.
+	Normalized int
+	Overlay    map[string][]byte
 }
 
 // Load type-checks ./... of repo for the given GOOS/GOARCH, with an optional
@@ -48,21 +52,66 @@ func Load(repo, goos, goarch string, overlay map[string][]byte) (*Prog, error) {
 		Tests:   false,
 		Overlay: overlay,
 	}
-	pkgs, err := packages.Load(cfg, "./...")
-	if err != nil {
-		return nil, fmt.Errorf("packages.Load: %v", err)
+	loadOnce := func(ov map[string][]byte) ([]*packages.Package, error) {
+		c2 := *cfg
+		c2.Overlay = ov
+		pkgs, err := packages.Load(&c2, "./...")
+		if err != nil {
+			return nil, fmt.Errorf("packages.Load: %v", err)
+		}
+		var errs []string
+		packages.Visit(pkgs, nil, func(p *packages.Package) {
+			for _, e := range p.Errors {
+				errs = append(errs, e.Error())
+			}
+		})
+		if len(errs) > 0 {
+			if len(errs) > 10 {
+				errs = errs[:10]
+			}
+			return nil, fmt.Errorf("type/load errors:\n  %s", strings.Join(errs, "\n  "))
+		}
+		return pkgs, nil
 	}
-	var errs []string
-	packages.Visit(pkgs, nil, func(p *packages.Package) {
-		for _, e := range p.Errors {
-			errs = append(errs, e.Error())
+	pkgs, err := loadOnce(overlay)
+	if err != nil {
+		return nil, err
+	}
+	// helper transparency: inline functions the baseline does not know (see normalize.go); never on the unchanged tree
+	normalized := 0
+	for round := 0; round < 3 && Baseline != nil; round++ {
+		var next []*packages.Package
+		for _, drop := range []bool{true, false} {
+			ov := normalize(pkgs, drop)
+			if ov == nil {
+				break
+			}
+			merged := map[string][]byte{}
+			for k, v := range overlay {
+				merged[k] = v
+			}
+			for k, v := range ov {
+				merged[k] = v
+			}
+			np, nerr := loadOnce(merged)
+			if nerr != nil {
+				nlog("normalised source rejected (drop=%v): %v", drop, nerr)
+				// the failed attempt mutated the syntax trees: reload the current state before trying again
+				pkgs, err = loadOnce(overlay)
+				if err != nil {
+					return nil, err
+				}
+				continue
+			}
+			next = np
+			overlay = merged
+			break
 		}
-	})
-	if len(errs) > 0 {
-		if len(errs) > 10 {
-			errs = errs[:10]
+		if next == nil {
+			break
 		}
-		return nil, fmt.Errorf("type/load errors:\n  %s", strings.Join(errs, "\n  "))
+		pkgs = next
+		normalized++
 	}
 	n := 0
 	for _, p := range pkgs {
@@ -76,7 +125,7 @@ func Load(repo, goos, goarch string, overlay map[string][]byte) (*Prog, error) {
 	prog, _ := ssautil.AllPackages(pkgs, ssa.BuilderMode(0))
 	prog.Build()
 	p := &Prog{Fset: prog.Fset, Roots: pkgs, SSA: prog, RepoDir: repo, Config: goos + "/" + goarch,
-		byPath: map[string]*packages.Package{}}
+		byPath: map[string]*packages.Package{}, Normalized: normalized, Overlay: overlay}
 	packages.Visit(pkgs, nil, func(pk *packages.Package) { p.byPath[pk.PkgPath] = pk })
 	return p, nil
 }
